@@ -354,6 +354,9 @@ EXTRA = {
            "of one span, so it holds no two plain lines that are collinear and touching.",
     "C11": " whole_conversion_scales: convertDoc at scale (n*a)/(d*b) is convertDoc at n/d with every scaled number multiplied by a "
            "(denominator by b), for every text.",
+    "C12": " catalogue_matches_inside_canvas: whatever the catalogue stage accepts in a span (circle, quarter, half or three-quarter "
+           "arc) has its control points inside the canvas of the span; catalogue_fragments_stay_near_their_drawing decides the "
+           "hypothesis over the regenerated catalogue. Arc bulge between the end points stays with the oracle.",
     "C14": " signal_levels_are_the_sources: the signal intensities the table conditions compare are regenerated from property.rs.",
     "C15": " quoted_texts_are_only_appended: the endorsement stage with quoted texts is the stage of the cells alone plus one verbatim "
            "text fragment per quoted text appended to the top-level fragments.",
